@@ -101,7 +101,7 @@ def extractMethodSigValue(op: TealOp) -> bytes:
 
     methodSignature = cast(str, op.args[0])
     if methodSignature[0] == methodSignature[-1] and methodSignature.startswith('"'):
-        methodSignature = methodSignature[1:-1]
+        methodSignature = unescapeStr(methodSignature)
     else:
         raise TealInternalError(
             "Method signature opcode error: signature {} not wrapped with double-quotes".format(
